@@ -284,3 +284,71 @@ theorem Spsc.prod_step {src ret ptid delivered q P C lbl q' P'}
     · rw [hd0] at hnd; exact absurd hnd (by simp)
 
 end MlModel.Queue
+
+namespace MlModel.Queue
+
+/-- a thread that is not inside a `get_batch` call (finished, or about to start one) and holds nothing -/
+structure Quiet (C : Thread) : Prop where
+  tok : TOK C
+  pc : C.pc = .bAcq ∨ C.pc = .done
+  res : C.result = []
+
+theorem Quiet.seqOf {C : Thread} (h : Quiet C) : seqOf C = C.received := by
+  unfold Queue.seqOf inHand
+  rcases h.pc with hp | hp <;> simp [hp, inHandPc, h.res]
+
+theorem Quiet.keepOK {q : Shared} {C : Thread} (h : Quiet C) : KeepOK q C := by
+  refine ⟨fun hp => h.res, ?_, ?_, fun _ => h.res, fun _ => h.res, fun _ => h.res⟩ <;>
+    (intro c hc; rcases h.pc with hp | hp <;> simp [hp] at hc)
+
+/-- the consumer slot is handed to another quiet thread that holds the same elements -/
+theorem Spsc.swap {src ret ptid d q P C C'} (hI : Spsc src ret ptid d q P C) (hq : Quiet C')
+    (hs : C'.received = seqOf C) : Spsc src ret ptid d q P C' :=
+  ⟨hI.prod, hq.tok, hq.keepOK, by rw [hq.seqOf, hs]; exact hI.deq, hI.lost, hI.fifo, hI.exh⟩
+
+/-- a finished call hands its elements over: they count as delivered, the slot is empty again -/
+theorem Spsc.deliver {src ret ptid d q P C C'} (hI : Spsc src ret ptid d q P C) (hC : Quiet C)
+    (hq : Quiet C') (hs : C'.received = []) : Spsc src ret ptid (d ++ C.received) q P C' :=
+  ⟨hI.prod, hq.tok, hq.keepOK, by rw [hq.seqOf, hs, List.append_nil, hI.deq, hC.seqOf], hI.lost, hI.fifo,
+    hI.exh⟩
+
+/-- what `exhausted` tells the consumer: everything enqueued has been taken out, and the enqueuer ended
+normally with the whole source (return value recorded) or at its first failing item -/
+theorem Spsc.at_end {src ret ptid d q P C} (hI : Spsc src ret ptid d q P C) (he : q.exhausted = true) :
+    (q.exc = none → q.returned = [ret] ∧ src = asItems (d ++ seqOf C)) ∧
+    (∀ e, q.exc = some e → e = .value ∧ ∃ rest, src = asItems (d ++ seqOf C) ++ Item.fail :: rest) := by
+  obtain ⟨hq0, hd⟩ := hI.exh he
+  have hp : q.produced = d ++ seqOf C := by rw [hI.fifo, hq0, List.append_nil, hI.deq]
+  have := hI.prod.of_done hd
+  rw [hp] at this
+  exact this
+
+/-- what has been delivered is always an initial segment of the source, all of it values -/
+theorem Spsc.prefix {src ret ptid d q P C} (hI : Spsc src ret ptid d q P C) :
+    ∃ tail, src = asItems d ++ tail := by
+  have hp : q.produced = d ++ (seqOf C ++ q.q) := by rw [hI.fifo, hI.deq, List.append_assoc]
+  have hpc := hI.prod.pc
+  unfold ProdPc at hpc
+  have key : ∃ tail, src = asItems q.produced ++ tail := by
+    cases h : P.pc <;> simp only [h] at hpc <;> (try exact hpc.elim)
+    all_goals first
+      | (obtain ⟨_, _, _, _, _, hp0, _⟩ := hpc; exact ⟨src, by rw [hp0]; rfl⟩)
+      | exact ⟨_, hpc.2⟩
+      | exact ⟨_, hpc.2.2⟩
+      | (obtain ⟨_, _, _, _, hE⟩ := hpc
+         rcases hE with ⟨_, _, _, h⟩ | ⟨_, _, _, rest, h⟩
+         · exact ⟨[], by rw [List.append_nil]; exact h⟩
+         · exact ⟨_, h⟩)
+  obtain ⟨tail, ht⟩ := key
+  refine ⟨asItems (seqOf C ++ q.q) ++ tail, ?_⟩
+  rw [ht, hp]
+  simp [asItems]
+
+/-- a fresh queue with its not yet started prefetch thread and no consumer -/
+theorem spsc_fresh (src : List Item) (ret : Nat) (ptid : Tid) (cap : Nat) (C : Thread) (hq : Quiet C)
+    (hr : C.received = []) :
+    Spsc src ret ptid [] { cap := cap } { prog := .producer src ret, pc := .sAcq, src := src } C := by
+  refine ⟨⟨rfl, rfl, rfl, by simp, ?_⟩, hq.tok, hq.keepOK, by simp [hq.seqOf, hr], rfl, rfl, by simp⟩
+  simp [ProdPc]
+
+end MlModel.Queue
